@@ -963,14 +963,15 @@ func evalVersion(c *hl.Ctx, vc verCase) {
 }
 
 func run(c *hl.Ctx) {
-	c.Rule("E3 bounded-exhaustive. Values: every leaf of the alphabet (info.leaves), every []interface{} of <=2 and every map[string]interface{} of <=2 keys from {a,code,data,server} over the leaves, every such container wrapped once more (slice, each key), two-child depth-2 values (container+leaf, container+container over a thinner container set), and in the thorough tier every 3-element slice and 3-key map, bare and wrapped under the key data; each x entry point {Data, WriteData} x callback {none, cb, a.b} through a ResponseRecorder, and (no callback) through ApiRequest against a loopback httptest.Server. Unmarshalable values (info.unmarshalable) at top level and nested. Errors: {SystemError, SystemComplexError, AppError} x codes x messages x entry points {Error, WriteError, CplxError, WriteCplxError} x callback; plain errors and plain errors with Status() in {400,404,500,503} x messages. WriteVersion over version strings x callback. Non-trivial = distinct (value | error case | version case) that was served and compared with the reference envelope (counted once per case, not per callback). " + queryRule + stringRule + reuseRule + configRule)
+	c.Rule("E3 bounded-exhaustive. Values: every leaf of the alphabet (info.leaves), every []interface{} of <=2 and every map[string]interface{} of <=2 keys from {a,code,data,server} over the leaves, every such container wrapped once more (slice, each key), two-child depth-2 values (container+leaf, container+container over a thinner container set), and in the thorough tier every 3-element slice and 3-key map, bare and wrapped under the key data; each x entry point {Data, WriteData} x callback {none, cb, a.b} through a ResponseRecorder, and (no callback) through ApiRequest against a loopback httptest.Server. Unmarshalable values (info.unmarshalable) at top level and nested. Errors: {SystemError, SystemComplexError, AppError} x codes x messages x entry points {Error, WriteError, CplxError, WriteCplxError} x callback; plain errors and plain errors with Status() in {400,404,500,503} x messages. WriteVersion over version strings x callback. Non-trivial = distinct (value | error case | version case) that was served and compared with the reference envelope (counted once per case, not per callback). " + queryRule + stringRule + reuseRule + configRule + methodRule)
 	c.Assume("the JSON model of each generated value is written down by the generator (no marshaller on the reference side); numbers are compared as exact rationals",
 		"encoding/json is trusted as the parser of response bodies", "net/http/httptest recorder and loopback server on 127.0.0.1 behave like a real server for a GET",
 		"media types are compared after mime.ParseMediaType (parameters not judged); the error-response body of plain errors is not judged beyond the client reporting an error",
 		"request-shape family: the pairs of a query string are read by a reference splitter (&, first =, percent-decoding) written in the harness; which value of a repeated callback key with differing values selects the shape, and whether a key equal to callback only after case folding or percent-decoding counts, is not judged (either legal shape is accepted, the Content-Type/body pairing is still judged); the HTTP status of coded-error and filter responses is only compared between responses of the same shape",
 		"string-content family: unicode/utf8 is trusted to tell valid from invalid UTF-8; a byte of invalid UTF-8 may read back as U+FFFD and the number of U+FFFD per malformed run is not judged; the data member of an application-error response is judged only when present; the body text of plain-error responses is not judged; whether U+2028/U+2029, DEL, C1 controls or HTML characters are escaped inside the JSON text is not judged (only what the text decodes to)",
 		"handler-reuse family: the value behind a handler is changed only between requests, never during one (no concurrent mutation); a handler is expected to answer for the value as it is when the request is served (the live-value reading of 'for any value the success handler answers data:<value>'); errors handed to Error/CplxError are immutable in this family (whether a handler re-reads Code()/Error() of a mutable error per request is not judged); the text of an error response for an unmarshalable value is not compared between requests; the Filter* functions and oh.Server are not changed while a handler object is alive in that family (the configuration-history family does that)",
-		"configuration-history family: oh.Server and the Filter* variables are assigned only between responses, never during one; a response is expected to follow the configuration as it is when the response is served, also when the handler object was built under another configuration (the package reads the variables per request; a handler that would bind a Filter* function when it is built is reported under the change class handler-built-before-the-change); the Server header of an error response is judged only when the response carries one; the Server values of the alphabet are legitimate header field values (no control characters); a redefined filter is expected to be called at least once per response, how often is not judged; the body text of plain-error responses is judged only for containing the text a redefined FilterError returned; the HTTP status of coded-error responses is not judged")
+		"configuration-history family: oh.Server and the Filter* variables are assigned only between responses, never during one; a response is expected to follow the configuration as it is when the response is served, also when the handler object was built under another configuration (the package reads the variables per request; a handler that would bind a Filter* function when it is built is reported under the change class handler-built-before-the-change); the Server header of an error response is judged only when the response carries one; the Server values of the alphabet are legitimate header field values (no control characters); a redefined filter is expected to be called at least once per response, how often is not judged; the body text of plain-error responses is judged only for containing the text a redefined FilterError returned; the HTTP status of coded-error responses is not judged",
+		"request-method-and-body family: httptest.NewRequest and the standard net/http client and server deliver method, header fields and body to the handler as written down (a self-check at start-up asserts that net/http reads the form field callback out of every form body of the alphabet as the alphabet says); the wrapper is selected by the query alone, as the statement says 'with a callback query parameter' (a handler that would also honour a form field, cookie or header named callback is reported); whether the handler reads or leaves the request body is not judged; the body of a HEAD response is not judged (the recorder keeps what the handler wrote, the wire carries none); the body text of plain-error responses is not judged; the client half (ApiRequest) only issues GET requests without a body and is exercised by the other families")
 	setup()
 	defer stopLoopback()
 
@@ -1030,6 +1031,7 @@ func run(c *hl.Ctx) {
 	runStringFamily(c, &idx)
 	runReuseFamily(c, &idx)
 	runConfigFamily(c, &idx)
+	runMethodFamily(c, &idx)
 	stop := false
 	n := 0
 	enumerate(c.Thorough(), func(v val) {
@@ -1074,6 +1076,8 @@ func replay(c *hl.Ctx, raw stdjson.RawMessage) {
 		replayReuse(c, raw)
 	case "config":
 		replayConfig(c, raw)
+	case "method":
+		replayMethod(c, raw)
 	case "version":
 		var vc verCase
 		if err := stdjson.Unmarshal(raw, &vc); err != nil {
